@@ -9,6 +9,7 @@
 #    (ctx.diff), oracle = rule vs documented expansion vs PEG formalism of the expansion (ctx.violation).
 # 4. contrib rep_one_min_max (no head in the engine model): harness/c09_impl.cpp runs it next to
 #    rep_min_max< Min, Max, one< C > > through the real parse().
+import Contrib
 import engine_check
 import props_c09
 import vlib
@@ -24,7 +25,11 @@ def run(ctx):
     engine_check.run(ctx, "C09")
     props_c09.run_romm(ctx)
     props_c09.probe_rep_opt0(ctx)
+    # rep_one_min_max = rep_min_max< Min, Max, one< C > > as a theorem (Properties_Contrib.v) + correspondence incl. buffer inputs
+    Contrib.stage(ctx)
 
 
 def replay(j):
+    if (j.get("replay") or {}).get("stage") == "contrib":
+        return Contrib.replay(j)
     return props_c09.replay(j)
